@@ -917,8 +917,13 @@ class History:
             return
         if not (c1 == v and v == c1 and c2 == v):
             self.report("O19.4", f"{kind}-unpickled-clone-not-equal-after-use", what)
-        if tokenize(c1) != e["token"] or tokenize(c2) != e["token"]:
-            self.report("O19.3", f"{kind}-clone-token-differs-after-use", what)
+        # the CRS strings of value and clone go along: a clone that differs from its original only
+        # in the spelling of one and the same CRS is D19a's class here as it is in check_new (a
+        # thorough run reported it unclassified: [crs 3857 pyproj_epsg] [crs 3857 pyproj_wkt] [use 1])
+        s_v = self.crs_str_of(e)
+        for c in (c1, c2):
+            if tokenize(c) != e["token"]:
+                self.report("O19.3", f"{kind}-clone-token-differs-after-use", what, (s_v, self.crs_str_of({"kind": kind, "value": c})))
 
     def recheck_crs_pool(self, e: Dict[str, Any]) -> None:
         """After an accessor that may fill lazily computed state: the laws must still hold
